@@ -137,28 +137,36 @@ def run_model(lines, timeout=600):
     return _run_sharded([DRIVER_BIN], lines, timeout, supervise=False)
 
 
-def run_impl(lines, timeout=600, release=False, per_case_timeout=10.0):
+def run_impl(lines, timeout=600, release=False, per_case_timeout=3.0):
     binp = HARNESS_BIN_REL if release else HARNESS_BIN
     return _run_sharded([binp, "worker"], lines, timeout, supervise=True, per_case_timeout=per_case_timeout)
 
 
+ABNORMAL_SEEN = {"n": 0}
+
+
 def _run_sharded(cmd, lines, timeout, supervise, per_case_timeout=10.0):
+    import threading
     n = max(1, min(NCPU, (len(lines) + 49) // 50))
     shards = [lines[i::n] for i in range(n)]
-    procs = []
-    for sh in shards:
-        procs.append(_Shard(cmd, sh, supervise, per_case_timeout))
+    ABNORMAL_SEEN["n"] = 0
+    procs = [_Shard(cmd, sh, supervise, per_case_timeout) for sh in shards]
     deadline = time.time() + timeout
+    ts = [threading.Thread(target=p.finish, args=(max(1.0, deadline - time.time()),)) for p in procs]
+    for t in ts:
+        t.start()
+    for t in ts:
+        t.join()
     res = {}
     for p in procs:
-        p.finish(max(1.0, deadline - time.time()))
         res.update(p.results)
     return res
 
 
 class _Shard:
     """one worker process fed a batch; on crash/hang the pending case gets CRASH/HANG and a new
-    worker continues with the remaining cases"""
+    worker continues with the remaining cases.  Output is read from the raw fd (select on a
+    buffered file object would miss lines already sitting in Python's buffer)."""
 
     def __init__(self, cmd, lines, supervise, per_case_timeout):
         self.cmd, self.lines, self.supervise = cmd, list(lines), supervise
@@ -167,12 +175,10 @@ class _Shard:
         self.start(self.lines)
 
     def start(self, lines):
-        self.pending_lines = lines
-        self.p = subprocess.Popen(self.cmd, stdin=subprocess.PIPE, stdout=subprocess.PIPE,
-                                  stderr=subprocess.DEVNULL, text=True, errors="replace")
-        data = "\n".join(lines) + "\n"
-        # feed in a thread-less way: inputs are small (<= few MB); write then close
         import threading
+        self.pending_lines = lines
+        self.p = subprocess.Popen(self.cmd, stdin=subprocess.PIPE, stdout=subprocess.PIPE, stderr=subprocess.DEVNULL)
+        data = ("\n".join(lines) + "\n").encode()
         self.t = threading.Thread(target=self._feed, args=(data,), daemon=True)
         self.t.start()
 
@@ -187,34 +193,42 @@ class _Shard:
         import select
         deadline = time.time() + budget
         while True:
+            fd = self.p.stdout.fileno()
+            buf = b""
             begun = None
             begun_at = time.time()
-            done_ids = set()
-            fd = self.p.stdout
             hang = False
-            while True:
-                limit = self.per_case_timeout if (self.supervise and begun is not None) else 3600
-                r, _, _ = select.select([fd], [], [], min(limit, max(0.1, deadline - time.time())))
-                if not r:
-                    if self.supervise and begun is not None and time.time() - begun_at >= self.per_case_timeout:
-                        hang = True
-                        break
-                    if time.time() >= deadline:
-                        hang = True
-                        break
+            eof = False
+            while not eof:
+                now = time.time()
+                if self.supervise and begun is not None:
+                    wait = max(0.0, min(self.per_case_timeout - (now - begun_at), deadline - now))
+                else:
+                    wait = max(0.0, min(5.0, deadline - now))
+                r, _, _ = select.select([fd], [], [], wait)
+                if r:
+                    chunk = os.read(fd, 1 << 16)
+                    if not chunk:
+                        eof = True
+                    buf += chunk
+                    while b"\n" in buf:
+                        line, buf = buf.split(b"\n", 1)
+                        line = line.decode(errors="replace")
+                        if line.startswith("B "):
+                            begun = line[2:]
+                            begun_at = time.time()
+                        elif line.startswith("R "):
+                            parts = line.split(" ", 2)
+                            self.results[parts[1]] = parts[2] if len(parts) > 2 else ""
+                            begun = None
                     continue
-                line = fd.readline()
-                if not line:
+                now = time.time()
+                if self.supervise and begun is not None and now - begun_at >= self.per_case_timeout:
+                    hang = True
                     break
-                line = line.rstrip("\n")
-                if line.startswith("B "):
-                    begun = line[2:]
-                    begun_at = time.time()
-                elif line.startswith("R "):
-                    parts = line.split(" ", 2)
-                    self.results[parts[1]] = parts[2] if len(parts) > 2 else ""
-                    done_ids.add(parts[1])
-                    begun = None
+                if now >= deadline:
+                    hang = True
+                    break
             if hang:
                 try:
                     self.p.kill()
@@ -224,15 +238,24 @@ class _Shard:
                 if begun is None:
                     return
                 self.results[begun] = "HANG"
-                rc = None
             else:
                 rc = self.p.wait()
-                if begun is None or not self.supervise:
-                    if begun is not None:
-                        self.results[begun] = "CRASH(rc=%s)" % rc
+                if begun is None:
                     return
-                sig = -rc if rc is not None and rc < 0 else rc
-                self.results[begun] = "CRASH(%s)" % (signal.Signals(sig).name if isinstance(sig, int) and 0 < sig < 65 and rc < 0 else "rc=%s" % rc)
+                if not self.supervise:
+                    self.results[begun] = "CRASH(rc=%s)" % rc
+                    return
+                if rc is not None and rc < 0:
+                    try:
+                        name = signal.Signals(-rc).name
+                    except ValueError:
+                        name = "sig%d" % -rc
+                    self.results[begun] = "CRASH(%s)" % name
+                else:
+                    self.results[begun] = "CRASH(rc=%s)" % rc
+            ABNORMAL_SEEN["n"] += 1
+            if ABNORMAL_SEEN["n"] > 6:
+                return   # enough crashing/hanging inputs collected; the remaining cases stay unreported (MISSING)
             # restart after the offending case
             ids = [l.split(" ", 1)[0] for l in self.pending_lines]
             try:
